@@ -55,6 +55,12 @@ MARKERS = {"TimeoutError": TimeoutError, "PermanentError": PermanentError,
 MARKER_ORDER = ["TimeoutError", "PermanentError", "RateLimitError", "ConcurrencyError",
                 "ServerError"]
 
+# builtin exception types a transport raises (no marker, no status): only the name heuristic applies
+BUILTIN_BASES = {"ConnectionError": ConnectionError, "BrokenPipeError": BrokenPipeError,
+                 "ConnectionResetError": ConnectionResetError, "OSError": OSError}
+ALL_BASES = {**MARKERS, **BUILTIN_BASES}
+_CLS_CACHE: dict = {}
+
 OPTIONAL = {  # lib token -> (module object, classifier, top-level package the module imports)
     "aiohttp": (x_aiohttp, x_aiohttp.aiohttp_classifier, "aiohttp"),
     "grpc": (x_grpc, x_grpc.grpc_classifier, "grpc"),
@@ -146,8 +152,16 @@ def _big_dec(v: int) -> str:
 def build(spec):
     """spec = {bases: [marker names], tname, attrs: {name: value|ABSENT}, args: [...], ctor: bool}
     -> a real exception object"""
-    bases = tuple(MARKERS[b] for b in spec["bases"]) or (Exception,)
-    cls = type(spec["tname"], bases, {})
+    key = (spec["tname"], tuple(spec["bases"]))
+    cls = _CLS_CACHE.get(key)          # the same TYPE recurs with different instances (per-type caches)
+    if cls is None:
+        bases = tuple(ALL_BASES[b] for b in spec["bases"]) or (Exception,)
+        try:
+            cls = type(spec["tname"], bases, {})
+        except TypeError:              # inconsistent MRO among builtin bases: keep the markers only
+            bases = tuple(MARKERS[b] for b in spec["bases"] if b in MARKERS) or (Exception,)
+            cls = type(spec["tname"], bases, {})
+        _CLS_CACHE[key] = cls
     exc = None
     if spec.get("ctor", True):
         try:
@@ -399,6 +413,13 @@ def gen_bases(rng):
     return picked
 
 
+def add_builtin_base(rng, bases):
+    """sometimes the exception also IS a builtin connection error (what a transport really raises)"""
+    if rng.random() < 0.12:
+        return bases + [rng.choice(list(BUILTIN_BASES))]
+    return bases
+
+
 def gen_spec(rng):
     attrs = {}
     for slot in ("status", "status_code", "code", "sqlstate"):
@@ -406,7 +427,7 @@ def gen_spec(rng):
     nargs = rng.choice([0, 0, 1, 1, 1, 2, 2, 3, 4])
     args = [gen_value(rng, "arg") for _ in range(nargs)]
     args = [None if a is ABSENT else a for a in args]
-    return {"bases": gen_bases(rng), "tname": gen_tname(rng), "attrs": attrs, "args": args,
+    return {"bases": add_builtin_base(rng, gen_bases(rng)), "tname": gen_tname(rng), "attrs": attrs, "args": args,
             "ctor": rng.random() < 0.7}
 
 
